@@ -877,6 +877,87 @@ func last(m []int) int {
 	return m[len(m)-1]
 }
 
+// ---------------------------------------------------------------------------
+// endurance: ONE instance lives through hundreds of phases that move its size between boundary values
+
+// EnduranceCase: Targets are indices into enduranceSizes; the queue is moved to each target size in turn (enqueuing a
+// running counter or dequeuing, every dequeued element compared with the model) and observed there. The head of the
+// queue has then travelled over hundreds of thousands of positions in one backing structure.
+type EnduranceCase struct {
+	Linked  bool  `json:"linked"`
+	Targets []int `json:"targets"`
+}
+
+var enduranceSizes = []int{0, 0, 0, 1, 2, 63, 64, 65, 127, 128, 129, 255, 256, 257, 511, 512, 513, 1023, 1024, 1025, 2047, 2048, 2049, 4095, 4096, 4097}
+
+func enduranceGen(s pbt.Src, thorough bool) EnduranceCase {
+	n := 150
+	if thorough {
+		n = 600
+	}
+	return EnduranceCase{Linked: s.Intn(4) == 0, Targets: pbt.Seq(s, 20, n, func(s pbt.Src) int { return s.Intn(len(enduranceSizes)) })}
+}
+
+func enduranceProp(c EnduranceCase, r *pbt.R) error {
+	if len(c.Targets) > 2000 {
+		return nil
+	}
+	var q fifo
+	var model []int
+	next := 0
+	name := "queue.New[int]()"
+	if c.Linked {
+		next, q, model, name = 1, linkedQ{queue.NewLinked(1)}, []int{1}, "queue.NewLinked(1)"
+	} else {
+		q = sliceQ{queue.New[int]()}
+	}
+	ops := 0
+	for ti, t := range c.Targets {
+		want := enduranceSizes[((t%len(enduranceSizes))+len(enduranceSizes))%len(enduranceSizes)]
+		if c.Linked && want > 1025 {
+			want = want % 1025 // Search on the linked queue is linear, keep the case cheap
+		}
+		ctx := func() string {
+			return fmt.Sprintf("%s, one instance moved through the sizes %v (indices into %v), at target %d = size %d, after %d operations", name, c.Targets[:ti+1], enduranceSizes, ti, want, ops)
+		}
+		for len(model) < want {
+			next++
+			q.Enqueue(next)
+			model = append(model, next)
+			ops++
+		}
+		for len(model) > want {
+			got, empty := q.Dequeue()
+			ops++
+			if got != model[0] || empty {
+				return fmt.Errorf("%s: Dequeue returned (%d, emptiness reported: %v), want %d (%d elements held)", ctx(), got, empty, model[0], len(model))
+			}
+			model = model[1:]
+		}
+		if got := q.Size(); got != len(model) {
+			return fmt.Errorf("%s: Size() = %d, want %d", ctx(), got, len(model))
+		}
+		if len(model) > 0 {
+			if got := q.Peek(); got != model[0] {
+				return fmt.Errorf("%s: Peek() = %d, want %d", ctx(), got, model[0])
+			}
+			if !q.Search(model[len(model)-1]) || !q.Search(model[0]) {
+				return fmt.Errorf("%s: Search of the front %d / back %d element reports absence", ctx(), model[0], model[len(model)-1])
+			}
+		} else {
+			got, empty := q.Dequeue()
+			if (c.Linked && got != 0) || (!c.Linked && !empty) {
+				return fmt.Errorf("%s: Dequeue on the empty queue returned (%d, emptiness reported: %v)", ctx(), got, empty)
+			}
+		}
+		if q.Search(next+1) || q.Search(0) || (len(model) > 0 && model[0] > 1 && q.Search(model[0]-1)) {
+			return fmt.Errorf("%s: Search finds an element that is not held (never enqueued, the zero value, or the one dequeued last)", ctx())
+		}
+	}
+	r.NonTrivialIf(ops >= 20000, ">= 20000 operations on the one instance")
+	return nil
+}
+
 func TestProp(t *testing.T) {
 	pbt.Run(t, "C05",
 		&pbt.Check[Case]{
@@ -919,6 +1000,11 @@ func TestProp(t *testing.T) {
 				"Size every 64 Dequeues, and at every phase boundary Size, Peek and Search of the front, middle and back elements, of the element removed last, of the zero value and of a value never enqueued; final drain in order. Random only. Non-trivial = the queue held >= 256 elements at some point.",
 			Gen: bulkGen, Prop: bulkProp, OutOfEnum: func(BulkCase, bool) bool { return true },
 			RapidQuick: 400, RapidThorough: 6000,
+		},		&pbt.Check[EnduranceCase]{
+			Name: "endurance",
+			Rule: "ONE queue (slice-backed; one case in four linked) is moved through 20..150 (thorough 600) target sizes drawn from {0, 1, 2, 2^k-1, 2^k, 2^k+1 for 2^k = 64..4096} by enqueuing a running counter or dequeuing (every dequeued element compared with the model); at every target Size, Peek, Search of front/back/absent elements, and a Dequeue on the empty queue. The instance sees tens to hundreds of thousands of operations and its head travels accordingly. Random only. Non-trivial = at least 20000 operations.",
+			Gen: enduranceGen, Prop: enduranceProp, OutOfEnum: func(EnduranceCase, bool) bool { return true },
+			RapidQuick: 60, RapidThorough: 600,
 		},
 	)
 }
